@@ -1412,13 +1412,41 @@ func mergeStates(c *Term, a, b *State, nAlloc int, cb *Term) (*State, bool) {
 		}
 		return And(g, c)
 	}
-	if len(a.allocs) > nAlloc {
+	sameShape := len(a.allocs) == len(b.allocs) && len(a.allocs) >= nAlloc
+	if sameShape {
+		for i := nAlloc; i < len(a.allocs); i++ {
+			if a.allocs[i].Site != b.allocs[i].Site || (a.allocs[i].Avail == nil) != (b.allocs[i].Avail == nil) {
+				sameShape = false
+				break
+			}
+		}
+	}
+	if sameShape {
+		// the two branches allocate at the same sites in the same order: one record per site with merged size
+		tg := func(g *Term) *Term {
+			if g == nil {
+				return True
+			}
+			return g
+		}
+		for i := nAlloc; i < len(a.allocs); i++ {
+			ra, rb := a.allocs[i], b.allocs[i]
+			m := AllocRec{Site: ra.Site, Size: Ite(c, ra.Size, rb.Size)}
+			if ra.Avail != nil {
+				m.Avail = Ite(c, ra.Avail, rb.Avail)
+			}
+			if ra.Guard != nil || rb.Guard != nil {
+				m.Guard = Ite(c, tg(ra.Guard), tg(rb.Guard))
+			}
+			r.allocs = append(r.allocs, m)
+		}
+	} else if len(a.allocs) > nAlloc {
 		for _, ar := range a.allocs[nAlloc:] {
 			ar.Guard = guard(ar.Guard, c)
 			r.allocs = append(r.allocs, ar)
 		}
 	}
-	if len(b.allocs) > nAlloc {
+	if !sameShape && len(b.allocs) > nAlloc {
 		for _, ar := range b.allocs[nAlloc:] {
 			if ar.Guard == nil {
 				ar.Guard = cb
